@@ -221,11 +221,32 @@ def sym_format(fmt, args, kw):
                 out.append(ord("{"))
                 i += 2
                 continue
-            j = fmt.index("}", i)
+            depth, j = 0, i
+            while True:
+                j += 1
+                if j >= n:
+                    raise ValueError("expected '}' before end of string")
+                if fmt[j] == "{":
+                    depth += 1
+                elif fmt[j] == "}":
+                    if depth == 0:
+                        break
+                    depth -= 1
             field = fmt[i + 1:j]
-            if "{" in field or "!" in field:
-                raise EngineError("nested / converted format field")
+            if "!" in field:
+                raise EngineError("converted format field")
             name, _, spec = field.partition(":")
+            if "{" in spec:
+                # nested replacement fields in the spec (e.g. {:0{width}b}): only concrete values may be substituted
+                def _sub(mo):
+                    key = mo.group(1)
+                    v = kw[key] if not key.isdigit() and key != "" else args[int(key)] if key.isdigit() else None
+                    if key == "":
+                        raise EngineError("auto-numbered nested format field")
+                    if isinstance(v, PROXY):
+                        raise EngineError("symbolic value in a nested format field")
+                    return str(v)
+                spec = re.sub(r"\{(\w*)\}", _sub, spec)
             if name == "":
                 a = args[auto]
                 auto += 1
